@@ -224,6 +224,11 @@ func runC13(seed int64, n int, dir string, tier string) *Report {
 				k := g.Int(len(lm.Edges))
 				lm.Edges[k].To = append(lm.Edges[k].To, "newtarget")
 				ldesc = fmt.Sprintf("edges[%d] target added", k)
+			case len(lm.RootElements) > 0 && g.Chance(0.6):
+				// same number of roots, one of them different: only the element comparison sees it
+				k := g.Int(len(lm.RootElements))
+				lm.RootElements[k] = lm.RootElements[k] + "-other"
+				ldesc = fmt.Sprintf("root %d replaced", k)
 			default:
 				lm.RootElements = append(lm.RootElements, "newroot")
 				ldesc = "root added"
@@ -241,6 +246,15 @@ func runC13(seed int64, n int, dir string, tier string) *Report {
 					f.Finder = ""
 				}
 				rep.Fail(f)
+			}
+			// a nil operand equals nothing (and must not panic)
+			rep.OracleEvals++
+			if pv := safely(func() {
+				if la.Equal(nil) || a.Equal(nil) || e.Equal(nil) {
+					rep.Fail(Failure{What: "Equal(nil) reports equality", Input: map[string]any{"a": graphops.PJ(la)}})
+				}
+			}); pv != nil {
+				rep.Fail(Failure{What: "Equal(nil) panicked", Detail: fmt.Sprint(pv), Input: map[string]any{"a": graphops.PJ(la)}})
 			}
 			lo := g.NodeList(shp)
 			listCase(la, lo, "unrelated")
@@ -274,4 +288,11 @@ func runC13(seed int64, n int, dir string, tier string) *Report {
 	rep.CasesFiles = cf.Write(filepath.Join(dir, "cases_C13"))
 	rep.ShardSize = shardSize
 	return rep
+}
+
+// safely runs f and returns the recovered panic value, if any.
+func safely(f func()) (pv any) {
+	defer func() { pv = recover() }()
+	f()
+	return nil
 }
